@@ -23,7 +23,7 @@ def inputs_for(tier, rng):
                "---\ntime: -5\n---\n", "---\ntime: 1e10\n---\n", ">> servings: 4294967296", "@a{99999999999999999999/1}",
                "@a{1%" + "9" * 400 + "}", "@a{" + "9" * 400 + "}", "~{1%h}" * 50]
     corpus = [common.unhx(c) for c in common.load_corpus(PID)]
-    return list(dict.fromkeys(corpus + special + ex + pc.fm_placements() + rnd + g + bad)), len(ex)
+    return list(dict.fromkeys(corpus + special + ex + pc.fm_placements() + pc.edge_families() + rnd + g + bad)), len(ex)
 
 
 def run(rep, tier, seed):
